@@ -481,6 +481,11 @@ pub fn generate_c15(tier: &str, rng: &mut Prng) -> Vec<Case> {
                 }
             }
         }
+        // seeds whose accepted candidate contains a sampler call with 16 or more rejected rounds in a row (a sampler that
+        // changes its source of randomness or gives up on such a run is no longer a function of the seed)
+        for seed in crate::seeds::special(n, tier, "long_rejection", 2) {
+            ops.push(Case::new(format!("keygen_digest {n} {}", hex(&seed))));
+        }
         // seeds made of extreme byte values (arithmetic on seed bytes that saturates or wraps loses bits exactly there)
         let extremes: Vec<Vec<u8>> = if thorough {
             vec![vec![0xffu8; 32], vec![0x80u8; 32], vec![0x7fu8; 32], vec![0xf0u8; 32], vec![0x0fu8; 32]]
@@ -513,28 +518,50 @@ pub fn oracle_c15(op: &[&str], out: &str) -> Verdict {
                 return Verdict::Fail(format!("keygen panicked: {out}"));
             }
             // again in this thread, in a fresh thread, and in a fresh thread after unrelated key generation and signing
-            let again = op_digest(n, &seed);
-            let s2 = seed.clone();
-            let t1 = std::thread::spawn(move || op_digest(n, &s2)).join().unwrap();
+            // (each run on its own thread, with a time limit: a defect here may also panic or never return)
+            let timed = |what: &str, f: Box<dyn FnOnce() -> String + Send>| -> Result<String, Verdict> {
+                let (tx, rx) = std::sync::mpsc::channel::<String>();
+                let _ = std::thread::Builder::new().stack_size(256 << 20).spawn(move || {
+                    let _ = tx.send(f());
+                });
+                match rx.recv_timeout(std::time::Duration::from_secs(240)) {
+                    Ok(v) => Ok(v),
+                    Err(std::sync::mpsc::RecvTimeoutError::Timeout) => Err(Verdict::Fail(format!("key generation from this seed did not return within 240 s ({what})"))),
+                    Err(_) => Err(Verdict::Fail(format!("key generation from this seed panicked ({what})"))),
+                }
+            };
+            let s1 = seed.clone();
+            let again = match timed("a second time", Box::new(move || op_digest(n, &s1))) {
+                Ok(v) => v,
+                Err(v) => return v,
+            };
             let s3 = seed.clone();
-            let t2 = std::thread::spawn(move || {
-                let (sk, _pk) = falcon_rust::falcon512::keygen([9u8; 32]);
-                let _ = falcon_rust::falcon512::sign(b"interleaved", &sk);
-                op_digest(n, &s3)
-            })
-            .join()
-            .unwrap();
-            if again != out || t1 != out || t2 != out {
-                return Verdict::Fail("key generation from the same seed produced different bytes (same thread / other thread / after interleaved calls)".into());
+            let t2 = match timed(
+                "after unrelated key generation and signing on the same thread",
+                Box::new(move || {
+                    let (sk, _pk) = falcon_rust::falcon512::keygen([9u8; 32]);
+                    let _ = falcon_rust::falcon512::sign(b"interleaved", &sk);
+                    op_digest(n, &s3)
+                }),
+            ) {
+                Ok(v) => v,
+                Err(v) => return v,
+            };
+            if again != out || t2 != out {
+                return Verdict::Fail("key generation from the same seed produced different bytes (other thread / after interleaved calls)".into());
             }
             // history independence across variants: the other variant with the same seed first, on the same thread
             let s4 = seed.clone();
-            let t3 = std::thread::spawn(move || {
-                let _ = op_digest(1536 - n, &s4);
-                op_digest(n, &s4)
-            })
-            .join()
-            .unwrap();
+            let t3 = match timed(
+                "after the other variant was generated from the same seed on the same thread",
+                Box::new(move || {
+                    let _ = op_digest(1536 - n, &s4);
+                    op_digest(n, &s4)
+                }),
+            ) {
+                Ok(v) => v,
+                Err(v) => return v,
+            };
             if t3 != out {
                 return Verdict::Fail("key generation gives different bytes after the other variant was generated from the same seed on the same thread".into());
             }
@@ -557,7 +584,7 @@ pub fn oracle_c15(op: &[&str], out: &str) -> Verdict {
                         sc.spawn(move || if op_digest(n, &s) == out { Some(i) } else { None })
                     })
                     .collect();
-                hs.into_iter().filter_map(|h| h.join().unwrap()).collect()
+                hs.into_iter().filter_map(|h| h.join().unwrap_or(None)).collect()
             });
             if !same.is_empty() {
                 return Verdict::Fail(format!("flipping seed bit(s) {:?} leaves the key pair unchanged", same));
